@@ -644,6 +644,11 @@ func (e *Ev) applyContract(x ast.Node, con *Contract, fn *types.Func, recv Val, 
 		t := postEv.boolOf(postEv.ev(en.Expr), en.Expr)
 		fx.assume(e.st.pc, t)
 	}
+	for _, en := range con.Defines {
+		t := postEv.boolOf(postEv.ev(en.Expr), en.Expr)
+		fx.assume(e.st.pc, t)
+		fx.trusted["result naming: "+con.Key+" is a deterministic function of its arguments ("+en.Text+")"] = true
+	}
 	switch len(results) {
 	case 0:
 		return VTuple{}
